@@ -158,6 +158,11 @@ def build(ast, ctx, mux=True):
             ops.append(rs.data.to_list())
         elif k == 'to_array':
             ops.append(rs.data.to_array(n[1]))
+        elif k == 'dist_update':
+            # rs.math.dist.update: scan(distogram.update, seed=factory); the Distogram is snapshot at once (it is
+            # the operator's own mutable state in streaming mode).  Python only: no Coq model of distogram.
+            ops.append(rs.math.dist.update(bin_count=n[1], reduce=bool(n[2])))
+            ops.append(rs.ops.map(lambda d: ([list(b) for b in d.bins], d.min, d.max)))
         elif k == 'batch':
             ops.append(rs.data.batch(n[1]))
         elif k == 'duc':
